@@ -123,10 +123,17 @@ def roundtrip(ex, build_lines, version, nested=False):
     popt = 'p2=-1 fold=1 prefix=1' if version == 1 else ''
     if nested:
         popt += ' depth=-1'
-    a = ex.run(['reset'] + build_lines + ['write C0 B0 v=%d' % version, 'bytes.check B0', 'parse new:C1 B0 %s' % popt, 'dump C0', 'dump C1'])
+    # the same CIF written again must give the same bytes (nothing of one cif_write may carry over into the next); so must, for
+    # CIF 2.0, the two documented ways of asking for the default: cif_version 0 in the options, and no options at all
+    again = ['write C0 B2 v=%d' % version, 'bytes.eq B0 B2']
+    if version != 1:
+        again += ['write C0 B2 v=0', 'bytes.eq B0 B2', 'write C0 B2 opts=null', 'bytes.eq B0 B2']
+    a = ex.run(['reset'] + build_lines + ['write C0 B0 v=%d' % version, 'bytes.check B0', 'parse new:C1 B0 %s' % popt, 'dump C0', 'dump C1'] + again)
     n = 1 + len(build_lines)
     bad = [x for x in a[1:n] if not isinstance(x, dict) or x.get('rc', 0) != 0]
-    return {'build_errors': bad[:3], 'write': a[n], 'check': a[n + 1], 'parse': a[n + 2], 'orig': a[n + 3], 'back': a[n + 4]}
+    labels = ['written a second time', 'written with cif_version 0 (default) in the options', 'written with NULL options']
+    same = [(labels[i], a[n + 5 + 2 * i], a[n + 6 + 2 * i]) for i in range(len(again) // 2)]
+    return {'build_errors': bad[:3], 'write': a[n], 'check': a[n + 1], 'parse': a[n + 2], 'orig': a[n + 3], 'back': a[n + 4], 'same': same}
 
 
 def judge(res, version, may_refuse=None):
@@ -140,6 +147,9 @@ def judge(res, version, may_refuse=None):
         if may_refuse and w['rc'] in may_refuse:
             return None, 'refused'
         return 'refused', 'cif_write returned %d for a CIF it must be able to write%s' % (w['rc'], '' if not may_refuse else ' (admissible refusals: %r)' % sorted(may_refuse))
+    for label, w2, eq in res.get('same', []):
+        if not isinstance(w2, dict) or w2.get('rc') != OK or not isinstance(eq, dict) or not eq.get('equal'):
+            return 'repeat', 'the same CIF %s: cif_write answered %r and the output is %s' % (label, w2.get('rc') if isinstance(w2, dict) else w2, 'different' if isinstance(eq, dict) else eq)
     c = res['check']
     if c['magic'] != (2 if version != 1 else 1):
         return 'format', 'output does not start with the CIF %s version comment' % ('2.0' if version != 1 else '1.1')
